@@ -36,7 +36,7 @@ ASSUMPTIONS = [
     "part 2 compares two real renders (family vs flat); the flat program's agreement with the reference interpreter is C01's subject",
     "a block/include region never contains a print of the enclosing fill's default alias (such a region could re-enter itself; {% block %} is not re-entrant in stock Django)",
 ]
-BOUNDS = {"quick": {"stock": 7200, "compose": 3600}, "thorough": {"stock": 160000, "compose": 60000}}
+BOUNDS = {"quick": {"stock": 7200, "compose": 8400}, "thorough": {"stock": 160000, "compose": 60000}}
 
 _PATCHED = {}
 
@@ -190,7 +190,12 @@ def family_sources(nodes, prefix, mid, noext=False):
                 files[name] = '{%% extends "%s_base" %%}{%% block %s %%}%s{%% endblock %%}' % (name, n["fam"], P(region))
                 files[name + "_base"] = "{%% block %s %%}junk%s{%% endblock %%}" % (n["fam"], prefix)
             else:
-                files[name] = P(region)
+                def plain_bp(n2, opts2):
+                    if n2["t"] == "include":
+                        return bp(n2, opts2)
+                    return "{%% block %s %%}%s{%% endblock %%}" % (n2["name"], pg.p_nodes(n2["c"], opts2))
+
+                files[name] = pg.p_nodes(region, dict(opts or {}, block_printer=plain_bp))
             return '{%% include "%s" %%}' % name
         name, op = n["name"], n["op"]
         if noext:
@@ -340,11 +345,26 @@ def compose_cases(draw):
             for sub, _d, _i in _node_lists(region):
                 taken.add(id(sub))
             if op == "include" or not names:
-                if _has_slot(region):
-                    continue
+                if _has_slot(region) and draw(st.integers(0, 99)) < 50:
+                    continue  # (half of the regions with {% slot %} tags are kept: a slot may sit in an included partial)
                 inc = {"t": "include", "c": region}
                 if draw(st.integers(0, 99)) < 40:
                     inc["fam"] = draw(st.sampled_from(["b1", "b2", "b3"]))
+                elif draw(st.integers(0, 99)) < 70:
+                    # a plain {% block %} inside the included partial, named like a block of the including family: an included
+                    # template never takes part in the includer's inheritance, so it renders its own content
+                    cand = [(l_, i_) for l_, _d, i_ in _node_lists(region) if l_ and not any(x["t"] == "fill" for x in l_)]
+                    in_slot = [l_ for l_, i_ in cand if i_ == "slot"]
+                    inner = in_slot if in_slot and draw(st.integers(0, 99)) < 75 else [l_ for l_, _i in cand]
+                    if inner:
+                        l2 = inner[draw(st.integers(0, len(inner) - 1))]
+                        a = draw(st.integers(0, len(l2) - 1))
+                        b_ = draw(st.integers(a + 1, len(l2)))
+                        sub = l2[a:b_]
+                        if not all(y["t"] == "text" and not pg._no_comments(y["s"]).strip() for y in sub) and not any(y["t"] == "var" and re.fullmatch(r"f\d+", y["n"]) for y in pgstrat.walk(sub)):
+                            l2[a:b_] = [{"t": "block", "name": draw(st.sampled_from(["b1", "b2"])), "op": "plain", "c": sub}]
+                            if l2 is region:
+                                inc["c"] = region = l2
                 lst[i:j] = [inc]
             else:
                 bname = names.pop(draw(st.integers(0, len(names) - 1)))
